@@ -2,6 +2,7 @@ package main
 
 import (
 	"math/big"
+	"strings"
 	"sync"
 )
 
@@ -84,21 +85,19 @@ func genConcRootsOf(r *Rng, emit func(Case), n int, only string, maxg int) {
 		var t toks
 		t.i(g)
 		for k := 0; k < g; k++ {
-			ctor := "CubeRootBigInt"
-			if r.Intn(3) == 0 {
-				ctor = "SqrtBigInt"
-			}
+			ctor := []string{"CubeRootBigInt", "CubeRootBigInt", "SqrtBigInt", "CubeRootBigRat", "SqrtBigRat"}[r.Intn(5)]
 			if only != "" {
 				ctor = only
 			}
 			t.s(ctor)
 			t.i(r.Range(2, 99))
-			if only == "FromBigRat" {
+			if strings.HasSuffix(ctor, "Rat") {
+				// radicands whose expansion never ends keep fetching radicand groups for as long as digits are produced
 				t.i(r.Pick([]int{3, 7, 13, 17, 19, 23, 29, 97, 101, 997}))
 			} else {
 				t.i(1)
 			}
-			if only == "CubeRootBigInt" {
+			if strings.HasPrefix(ctor, "CubeRoot") {
 				t.i(r.Pick([]int{110, 150}))
 			} else {
 				t.i(r.Pick([]int{150, 210, 260}))
@@ -183,6 +182,7 @@ func genRoots(fam []string, p int64) generator {
 		genPairs(r, emit, sqrtCtors, cubeCtors, np/2)
 		// different Numbers of this family computed at the same time by different goroutines
 		genConcRootsOf(r, emit, np, fam[2], 8)
+		genConcRootsOf(r, emit, np, fam[3], 8)
 		// zero and malformed
 		for _, v := range allVers {
 			for _, ctor := range fam {
